@@ -110,8 +110,8 @@ func genFaults(t *rapid.T, label string) []memnet.Fault {
 func gen(t *rapid.T) pairsim.Scenario {
 	sc := pairsim.Scenario{Transport: rapid.SampledFrom([]string{"udp", "udp", "udp", "tcp"}).Draw(t, "transport"), TickMs: rapid.SampledFrom([]int{100, 500, 4000}).Draw(t, "tick"), SettleMs: 300000}
 	bw := rapid.IntRange(0, 4).Draw(t, "bw") > 0
-	sc.Cli = pairsim.EndCfg{SZX: rapid.IntRange(0, 6).Draw(t, "cszx"), Blockwise: bw, Queue: rapid.SampledFrom([]int{0, 1, 16}).Draw(t, "cq"), AckTimeoutMs: 500, MaxRetransmit: rapid.IntRange(0, 3).Draw(t, "cmr"), NStart: rapid.SampledFrom([]int{1, 8}).Draw(t, "nstart"), Limit: rapid.SampledFrom([]int{1, 2, 16}).Draw(t, "limit"), BwTimeoutMs: rapid.SampledFrom([]int{500, 3000}).Draw(t, "cbwt")}
-	sc.Srv = pairsim.EndCfg{SZX: rapid.IntRange(0, 6).Draw(t, "sszx"), Blockwise: bw, Queue: rapid.SampledFrom([]int{0, 1, 16}).Draw(t, "sq"), AckTimeoutMs: 500, MaxRetransmit: 2, BwTimeoutMs: rapid.SampledFrom([]int{500, 3000}).Draw(t, "sbwt")}
+	sc.Cli = pairsim.EndCfg{SZX: rapid.IntRange(0, 6).Draw(t, "cszx"), Blockwise: bw, Queue: rapid.SampledFrom([]int{0, 1, 16}).Draw(t, "cq"), AckTimeoutMs: 500, MaxRetransmit: rapid.IntRange(0, 3).Draw(t, "cmr"), NStart: rapid.SampledFrom([]int{1, 8}).Draw(t, "nstart"), Limit: rapid.SampledFrom([]int{1, 2, 16}).Draw(t, "limit"), BwTimeoutMs: rapid.SampledFrom([]int{500, 3000, -1}).Draw(t, "cbwt")}
+	sc.Srv = pairsim.EndCfg{SZX: rapid.IntRange(0, 6).Draw(t, "sszx"), Blockwise: bw, Queue: rapid.SampledFrom([]int{0, 1, 16}).Draw(t, "sq"), AckTimeoutMs: 500, MaxRetransmit: 2, BwTimeoutMs: rapid.SampledFrom([]int{500, 3000, -1}).Draw(t, "sbwt")}
 	if sc.Transport == "tcp" {
 		sc.Cli.MaxMsg, sc.Srv.MaxMsg = 70000, 70000
 	} else {
